@@ -7,6 +7,8 @@ import (
 	"path/filepath"
 	"sort"
 	"strings"
+	"sync/atomic"
+	"time"
 
 	"github.com/blevesearch/bleve/v2"
 	"github.com/blevesearch/bleve/v2/index/scorch"
@@ -35,9 +37,46 @@ type c01Config struct {
 	disk      bool
 }
 
+// A merge that has written its output is parked just before it is introduced until the next batch of
+// the history has been applied (or 150 ms have passed): batches land in the window between the start
+// of a merge and its introduction on purpose, not only when the scheduler happens to put them there.
+type c01Gate struct {
+	pending int32
+	release chan struct{}
+	parked  int32
+}
+
+var c01MergeGate = &c01Gate{release: make(chan struct{}, 1)}
+
+func init() {
+	scorch.RegistryEventCallbacks["verif-c01-merge-gate"] = func(e scorch.Event) bool {
+		if e.Kind == scorch.EventKindMergeTaskIntroductionStart {
+			atomic.StoreInt32(&c01MergeGate.pending, 1)
+			select {
+			case <-c01MergeGate.release:
+				atomic.AddInt32(&c01MergeGate.parked, 1)
+			case <-time.After(150 * time.Millisecond):
+			}
+			atomic.StoreInt32(&c01MergeGate.pending, 0)
+		}
+		return true
+	}
+}
+
+// called after every batch of the history
+func (g *c01Gate) batchApplied() {
+	if atomic.LoadInt32(&g.pending) == 1 {
+		select {
+		case g.release <- struct{}{}:
+		default:
+		}
+	}
+}
+
 func c01Configs() []c01Config {
 	cfgs := []c01Config{
 		{"scorch-disk", scorch.Name, scorch.Name, nil, true},
+		{"scorch-disk-gated-merges", scorch.Name, scorch.Name, map[string]interface{}{"eventCallbackName": "verif-c01-merge-gate"}, true},
 		{"scorch-mem", scorch.Name, scorch.Name, nil, false},
 		{"upsidedown-boltdb", upsidedown.Name, boltdb.Name, nil, true},
 		{"upsidedown-goleveldb", upsidedown.Name, goleveldb.Name, map[string]interface{}{"create_if_missing": true}, true},
@@ -222,16 +261,21 @@ func runC01(t *Trace, r *Rng, tier string, _ []string) {
 	tmpRoot, err := os.MkdirTemp("", "verif-c01-")
 	must(err)
 	defer os.RemoveAll(tmpRoot)
-	reopens, forceMerges, emptyBatches, multiOpIds := 0, 0, 0, 0
+	reopens, forceMerges, emptyBatches, multiOpIds, injected := 0, 0, 0, 0, 0
 	for h := 0; h < nHist; h++ {
 		idSpace, keySpace := r.Range(4, 12), 3
 		ops := c01GenOps(r, r.Range(10, maxOps), idSpace, keySpace)
 		use := cfgs
 		if tier != "thorough" { // quick: the six base configurations plus two segment versions per history
-			use = append(append([]c01Config{}, cfgs[:6]...), cfgs[6+(h*2)%7], cfgs[6+(h*2+1)%7])
+			use = append(append([]c01Config{}, cfgs[:7]...), cfgs[7+(h*2)%7], cfgs[7+(h*2+1)%7])
 		}
-		for _, cfg := range use {
-			dir := filepath.Join(tmpRoot, fmt.Sprintf("%s-%d", cfg.name, h))
+		// the gated-merge configuration gets further partitions of the same history: each is another
+		// placement of batches relative to merges
+		for rep := 0; rep < 5; rep++ {
+			use = append(use, cfgs[1])
+		}
+		for ui, cfg := range use {
+			dir := filepath.Join(tmpRoot, fmt.Sprintf("%s-%d-%d", cfg.name, h, ui))
 			must(os.MkdirAll(dir, 0o755))
 			idx, err := cfg.open(dir)
 			if err != nil {
@@ -241,13 +285,63 @@ func runC01(t *Trace, r *Rng, tier string, _ []string) {
 			t.Emit(cfg.name+"/reset", false, "reset", "ok")
 			rr := r.Fork() // the partition into batches differs per configuration
 			pos := 0
+			var lastMulti []string
 			for pos < len(ops) {
 				n := rr.Intn(7) // 0 = empty batch
 				if pos+n > len(ops) {
 					n = len(ops) - pos
 				}
-				chunk := ops[pos : pos+n]
-				pos += n
+				var chunk []c01Op
+				if cfg.name == "scorch-disk-gated-merges" && len(lastMulti) > 0 && rr.Chance(60) {
+					// give a merge of the segments just written the time to reach its introduction
+					for w := 0; w < 30 && atomic.LoadInt32(&c01MergeGate.pending) == 0; w++ {
+						time.Sleep(time.Millisecond)
+					}
+				}
+				if cfg.name == "scorch-disk-gated-merges" && atomic.LoadInt32(&c01MergeGate.pending) == 1 && len(lastMulti) > 0 && rr.Chance(75) {
+					// a merge is parked before its introduction: touch one document of the latest multi-document
+					// batch now (its segment had no deletions when the merge began, its other documents stay live)
+					id := lastMulti[rr.Intn(len(lastMulti))]
+					if rr.Chance(60) {
+						chunk = []c01Op{{kind: 'd', key: id}}
+					} else {
+						o := c01GenOps(rr, 1, idSpace, keySpace)[0]
+						for o.kind != 'i' {
+							o = c01GenOps(rr, 1, idSpace, keySpace)[0]
+						}
+						o.key = id
+						chunk = []c01Op{o}
+					}
+					n = 1
+					injected++
+				} else {
+					chunk = ops[pos : pos+n]
+					pos += n
+				}
+				if ni := func() int {
+					c := 0
+					for _, o := range chunk {
+						if o.kind == 'i' {
+							c++
+						}
+					}
+					return c
+				}(); ni >= 2 {
+					if cfg.name == "scorch-disk-gated-merges" && atomic.LoadInt32(&c01MergeGate.pending) == 1 {
+						// a merge planned before this batch is let through first: the next one to park will
+						// have this batch's segment among its inputs
+						c01MergeGate.batchApplied()
+						for w := 0; w < 50 && atomic.LoadInt32(&c01MergeGate.pending) == 1; w++ {
+							time.Sleep(time.Millisecond)
+						}
+					}
+					lastMulti = lastMulti[:0]
+					for _, o := range chunk {
+						if o.kind == 'i' {
+							lastMulti = append(lastMulti, o.key)
+						}
+					}
+				}
 				var sb strings.Builder
 				sb.WriteString("batch")
 				for _, o := range chunk {
@@ -299,6 +393,7 @@ func runC01(t *Trace, r *Rng, tier string, _ []string) {
 					}
 				}
 				t.Emit(cfg.name+"/batch", n > 0, sb.String(), res)
+				c01MergeGate.batchApplied()
 				if cfg.indexType == scorch.Name && cfg.disk && rr.Chance(10) { // ForceMerge on an in-memory scorch never returns (no merger loop): see C11
 					if adv, err := idx.Advanced(); err == nil {
 						if sc, ok := adv.(*scorch.Scorch); ok {
@@ -322,6 +417,8 @@ func runC01(t *Trace, r *Rng, tier string, _ []string) {
 		}
 	}
 	t.Set("reopens", reopens)
+	t.Set("batches_injected_into_merge_windows", injected)
+	t.Set("merges_released_after_a_batch", int(atomic.LoadInt32(&c01MergeGate.parked)))
 	t.Set("force_merges", forceMerges)
 	t.Set("empty_batches", emptyBatches)
 	t.Set("batches_with_several_ops_on_one_id", multiOpIds)
